@@ -10,10 +10,12 @@ import warnings
 from .. import core
 from ..core import cz, clist, cfloat
 from ..runner import Entry, differential
+from . import c05_translate
 
 PRE = ("From Coq Require Import PrimFloat.\nFrom EsVerif.Common Require Import Base.\n"
        "From EsVerif.C05 Require Import Model Spec Exec.\n")
 
+MAXOUT = 400000        # larger outputs are not converted to lists (reported as an error outcome)
 MAXBIN = 3000          # generated cases are kept below this many bins (lists in Coq)
 
 
@@ -38,10 +40,38 @@ def copt_f(v):
     return "None" if v is None else "(Some %s)" % cfloat(_f(v))
 
 
-def cmode(c):
+def _kw(c):
+    """the binsize= / nbin= keywords as passed: binsize is "omit" (keyword not passed), None or a
+    number; nbin is None or an int.  Without a "kw" entry the case passes exactly the one named by mode."""
+    if c.get("kw") is not None:
+        return c["kw"]["binsize"], c["kw"]["nbin"]
     if c["mode"] == "nbin":
-        return "(ByNbin %s)" % cz(c["spec"])
-    return "(ByBinsize %s)" % cfloat(_f(c["spec"]))
+        return "omit", c["spec"]
+    return c["spec"], None
+
+
+def _api(c):
+    return "ApiBinner" if c["api"] == "binner" else "ApiHistogram"
+
+
+def _eff(c):
+    """(mode, spec) in force according to the documented keyword handling, None = neither given"""
+    bs, nb = _kw(c)
+    if _api(c) == "ApiHistogram":
+        if nb is not None:
+            return "nbin", nb
+        if bs == "omit":
+            return "binsize", 1.0
+        return None if bs is None else ("binsize", bs)
+    if bs not in ("omit", None):
+        return "binsize", bs
+    return None if nb is None else ("nbin", nb)
+
+
+def ckw(c):
+    bs, nb = _kw(c)
+    k = "KwOmit" if bs == "omit" else "KwNone" if bs is None else "(KwVal %s)" % cfloat(_f(bs))
+    return "%s %s" % (k, "None" if nb is None else "(Some %s)" % cz(nb))
 
 
 def carrays(o):
@@ -74,13 +104,16 @@ def expected(c):
     sel = [v for v in x if (lo is None or v >= lo) and (hi is None or v <= hi)]
     if not sel:
         return None
-    if c["mode"] == "nbin":
-        nbin = c["spec"]
+    eff = _eff(c)
+    if eff is None:
+        return None
+    if eff[0] == "nbin":
+        nbin = eff[1]
         if nbin < 1:
             return None
         bs = (dmax - dmin) / nbin
     else:
-        bs = _f(c["spec"])
+        bs = _f(eff[1])
         if not bs > 0:
             return None
         q = (dmax - dmin) / bs
@@ -232,6 +265,15 @@ def _adversarial(r):
             cs.append(_case(r, "adv:%s+limits" % fam, d, dt, "nbin", r.choice([1, 2, 4]), lo, hi))
             if fam not in ("tiny", "huge"):
                 cs.append(_case(r, "adv:%s+limits" % fam, d, dt, "binsize", r.choice([1, 0.5, 0.25]), lo, hi))
+    # combinations of the binsize= and nbin= keywords through the three entry points
+    for d, dt in ([0, 1, 2, 3, 4], "i8"), ([0.5, 0.25, 3.0, 1.0, 1.0, 2.5], "f8"), ([2, 2, 7, 7, 7, 3], "i4"):
+        for api in ("tuple", "more", "binner"):
+            for bs, nb in (("omit", None), ("omit", 3), (None, None), (None, 2), (0.5, 3), (2, 1), (1, None), (0.25, 4)):
+                for lo, hi in ((None, None), (1, 3)):
+                    c = _case(r, "adv:options", d, dt, "nbin" if nb is not None else "binsize",
+                              nb if nb is not None else (1.0 if bs in ("omit", None) else bs), lo, hi, api=api)
+                    c["kw"] = {"binsize": bs if bs in ("omit", None) else _enc(bs), "nbin": nb}
+                    cs.append(c)
     # inputs the code rejects (the property makes no claim; the model must agree on the error class)
     cs.append(_case(r, "rejected", [], "f8", "nbin", 2, None, None))
     cs.append(_case(r, "rejected", [], "f8", "binsize", 1.0, 0, 1))
@@ -255,6 +297,15 @@ def _random(ctx, count, big):
         lo, hi = _limits(r, d, which)
         mode = r.choice(["nbin", "binsize"])
         c = _case(r, "%s/%s/%s" % (kind, mode, which), d, dt, mode, _spec(r, d, lo, hi, mode), lo, hi)
+        if r.random() < 0.12:                   # both keywords, or the default bin size
+            other = "binsize" if mode == "nbin" else "nbin"
+            t = r.random()
+            if t < 0.7:
+                c["kw"] = {"binsize": c["spec"] if mode == "binsize" else _enc(_spec(r, d, lo, hi, "binsize")),
+                           "nbin": c["spec"] if mode == "nbin" else _spec(r, d, lo, hi, "nbin")}
+            else:
+                c["kw"] = {"binsize": "omit", "nbin": None}
+            c["family"] = "%s/%s/%s" % (kind, "options", which)
         e = expected(c)
         if e is not None and e["nbin"] > MAXBIN:
             continue
@@ -294,10 +345,11 @@ class Hist(Entry):
         if c["container"] == "ndarray" or c["dtype"] != "f8":
             data = np.array(data, dtype=c["dtype"])
         kw = {}
-        if c["mode"] == "nbin":
-            kw["nbin"] = c["spec"]
-        else:
-            kw["binsize"] = _num(c["spec"])
+        bs, nb = _kw(c)
+        if bs != "omit":
+            kw["binsize"] = None if bs is None else _num(bs)
+        if nb is not None:
+            kw["nbin"] = nb
         if c["min"] is not None:
             kw["min"] = _num(c["min"])
         if c["max"] is not None:
@@ -318,6 +370,9 @@ class Hist(Entry):
                        "min": float(b["min"]).hex(), "max": float(b["max"]).hex(),
                        "sort": [int(v) for v in b["sort_index"]], "wsort": [int(v) for v in b["wsort"]]}
             assert h.dtype == np.int64 and rev.dtype == np.int64 and h.ndim == 1 and rev.ndim == 1
+            if h.size > MAXOUT or rev.size > MAXOUT:     # a (mutated) tree that derives a huge bin count
+                raise OverflowError("hist/rev with %d/%d elements: far beyond what the generated cases ask for"
+                                    % (h.size, rev.size))
             return {"hist": [int(v) for v in h], "rev": [int(v) for v in rev], "obs": obs}
         try:
             with warnings.catch_warnings():
@@ -338,16 +393,15 @@ class Hist(Entry):
         x = [_f(v) for v in c["data"]]
         if c["dtype"] == "f4":
             pass                                    # already rounded to binary32 by the generator
-        return "%s %s %s %s" % (clist(x, cfloat), copt_f(c["min"]), copt_f(c["max"]), cmode(c))
+        return "%s %s %s %s %s" % (_api(c), clist(x, cfloat), copt_f(c["min"]), copt_f(c["max"]), ckw(c))
 
     def term(self, c, out):
-        self.monitors.append((c, "if monitor %s then 0 else 1" % self._input(c)))
-        return "v_hist %s %s %s %s %s" % (self._input(c), cobs(out["c"]), cobs(out["py"]),
+        self.monitors.append((c, "monitor_code %s" % self._input(c)))
+        return "v_hist_api %s %s %s %s %s" % (self._input(c), cobs(out["c"]), cobs(out["py"]),
                                           carrays(out["c"]), carrays(out["py"]))
 
     def show(self, c):
-        return ("match histogram EngC %s with Ok o => Some (o_params o, o_hist o, o_rev o) | Err _ => None end"
-                % self._input(c))
+        return "show_api %s" % self._input(c)
 
     def nontrivial(self, c, out):
         e = expected(c)
@@ -358,12 +412,16 @@ class Hist(Entry):
         return len(occ) >= 2 and (empty or e["ties"] > 0 or e["edge"] > 0 or e["excluded"] > 0)
 
     def family(self, c):
-        return c.get("family", "?").split("/")[0] + ":" + c["mode"] + ":" + \
+        eff = _eff(c)
+        return c.get("family", "?").split("/")[0] + ":" + (eff[0] if eff else "neither") + \
+            ("+kw" if c.get("kw") is not None else "") + ":" + \
             ("both" if c["min"] is not None and c["max"] is not None else
              "min" if c["min"] is not None else "max" if c["max"] is not None else "nolimit")
 
 
 ENTRIES = [Hist()]
+
+REAL_THEOREMS = {"C05_binnum_monotone", "C05_argsort_stable", "C05_contracts_hold", "C05_holds_finite"}
 
 TRUSTED = [
     "Coq 8.16.1 kernel (coqc, vm_compute; no native_compute); all C05 theorems are closed under the global context "
@@ -389,14 +447,47 @@ def run(ctx, replay=None):
                 "implementation's arrays).  non-trivial: >= 2 occupied bins and (an empty bin, a tie, a value exactly on a "
                 "bin edge, or an excluded/uncounted datum).  distinct by canonical JSON.")
     ctx.trusted = TRUSTED
-    core.proof_step(ctx, "C05", core.ALLOW_FLOAT)
+    built = core.proof_step(ctx, "C05", core.ALLOW_FLOAT + core.ALLOW_REALS)
+    if built:
+        # only the IEEE theorems may use the axioms of the reals; everything else: primitive floats only
+        import os
+        thms = [t for t in core.theorems_in(os.path.join(core.COQDIR, "theories", "C05", "Properties.v"))
+                if t not in REAL_THEOREMS]
+        res, bad, _ = core.assumptions(ctx.work + "/strict", "C05.Properties", thms, core.ALLOW_FLOAT)
+        ctx.obligation("the %d theorems of C05/Properties.v other than %s depend on no axiom besides the primitive-float "
+                       "specifications" % (len(thms), ", ".join(sorted(REAL_THEOREMS))), not bad, str(bad[:3]))
+        if bad:
+            ctx.violation("a discrete C05 theorem depends on an axiom outside its allow-list: %s" % bad[:3],
+                          {"kind": "assumptions", "bad": bad}, found_input=False)
+    # constants and small decisions regenerated from the source of the tree under test
+    try:
+        consts, gen = c05_translate.translate(ctx.impl)
+        t = ("if consts_agree gen_default_binsize gen_nbin_plus gen_rev_extra gen_c_binold_init gen_py_binold_init "
+             "gen_c_offset_step gen_py_offset_init gen_c_offset_end_init gen_py_offset_end_init gen_c_offset_end_step "
+             "gen_py_offset_end_step gen_lo_inclusive gen_hi_inclusive gen_sort_stable gen_hist_nbin_overrides "
+             "gen_binner_binsize_first then 0 else 1")
+        vals = core.coq_eval(ctx.work + "/gen", PRE + "Open Scope Z_scope.\n" + gen, [t], tag="gen", shard=1)
+        same = vals[0].strip("() ").replace("%Z", "") == "0"
+        note = "" if same else "regenerated: %s" % consts
+    except (c05_translate.TranslateError, OSError, SyntaxError, core.CoqEvalError) as e:
+        same, note, consts = False, str(e)[-600:], None
+    ctx.obligation("constants regenerated from esutil/stat/util.py and chist_pywrap.c (c05_translate) equal the named "
+                   "constants of C05/Model.v (theorem C05_consts ties those to the model)", same, note)
+    broken_tie = None if same else {"kind": "translation", "no_longer_checks": "C05.C05_consts / Exec.consts_agree",
+                                    "detail": note, "regenerated": consts}
     ent = ENTRIES[0]
     differential(ctx, PRE, ENTRIES, replay)
+    if broken_tie is not None:
+        # a failing input, when there is one, has been reported by the differential run above
+        ctx.violation("the source no longer matches the constants of the model (or the translator does not recognise "
+                      "the code): " + note[:300], broken_tie, found_input=False)
     # contract monitors of C05_model_meets_spec on every explored input
     if ent.monitors:
         try:
             vals = core.coq_eval(ctx.work + "/monitor", PRE, [t for _, t in ent.monitors], tag="monitor")
-            bad = [c for (c, _), v in zip(ent.monitors, vals) if v.strip("() ").replace("%Z", "") != "0"]
+            codes = [v.strip("() ").replace("%Z", "") for v in vals]
+            bad = [c for (c, _), v in zip(ent.monitors, codes) if v not in ("0", "2")]
+            ctx.count("inside the proved domain of C05_holds_finite", sum(1 for v in codes if v == "2"))
         except core.CoqEvalError as e:
             bad = None
             ctx.notes.append(str(e)[-1500:])
